@@ -302,7 +302,8 @@ def variants(tier: str) -> List[Dict[str, Any]]:
     V.append(variant("tick-base4-late-props", clock="TICK", props=True, props_late=True, depth=3 if q else 4,
                      alphabet=C15_ALPHABET, base=[("append",), ("append",), ("append",), ("append",)], **one))
     # a data file registered twice (two manifests list it): deletes must still remove exactly the named file
-    rr = (("append",), ("delete_file", "oldest"), ("delete_file", "newest"), ("expire", "all_but_current")) + REREGISTER_OPS
+    rr = (("append",), ("delete_file", "oldest"), ("delete_file", "newest"), ("expire", "all_but_current")) + REREGISTER_OPS \
+        + hist.REGISTER_TWO_OPS
     V.append(variant("tick-reregister", clock="TICK", depth=4 if q else 5, alphabet=rr, base=[("append",)], **one))
     return V
 
@@ -316,7 +317,7 @@ def run(tier: str, seed: int) -> Report:
     rep.cov["variants"] = len(V)
     rep.cov["max_depth"] = max(v["depth"] for v in V)
     rep.cov["depth_per_variant"] = {v["name"]: v["depth"] for v in V}
-    rep.cov["alphabet"] = [hist.op_label(o) for o in C15_ALPHABET + STEP_BACK_OPS + REREGISTER_OPS]
+    rep.cov["alphabet"] = [hist.op_label(o) for o in C15_ALPHABET + STEP_BACK_OPS + REREGISTER_OPS + hist.REGISTER_TWO_OPS]
     if tier == "thorough":
         for v in (V[1], V[4]):
             d = hist.differential(PROP, tier, seed, v, 4, "checks.c15", res["visited"][v["name"]], set(rep.violations), rep)
@@ -357,7 +358,7 @@ def replay(case: Dict[str, Any]) -> Dict[str, Any]:
         rep.merge(e4_worker((case.get("tier", "quick"), 0, n, [parents[1]])))
     else:
         v = dict(det["variant"])
-        v["alphabet"] = list(C15_ALPHABET + STEP_BACK_OPS + REREGISTER_OPS)
+        v["alphabet"] = list(C15_ALPHABET + STEP_BACK_OPS + REREGISTER_OPS + hist.REGISTER_TWO_OPS)
         ops = [hist.parse_op(x) for x in det["history"]]
         cwd = os.getcwd()
         try:
